@@ -162,15 +162,18 @@ class FSM(addons.AddonPersistence, block.SBlock):
                     f"TIMERS['{state}']: undefined event '{event}'")
             cls._ct_timed_event[state] = event
 
-        for method_name, method in vars(cls).items():
-            try:
-                cb_type, name = method_name.split('_', 1)
-                cb_dict = cls._ct_methods[cb_type]
-            except (ValueError, KeyError):
-                continue
-            valid_names = cls._ct_events if cb_type == 'cond' else cls._ct_states
-            if name in valid_names and callable(method):
-                cb_dict[name] = method
+        # callbacks may be inherited: a subclass of an FSM keeps the cond_EVENT,
+        # enter_STATE and exit_STATE methods of its base classes
+        for klass in reversed(cls.__mro__):
+            for method_name, method in vars(klass).items():
+                try:
+                    cb_type, name = method_name.split('_', 1)
+                    cb_dict = cls._ct_methods[cb_type]
+                except (ValueError, KeyError):
+                    continue
+                valid_names = cls._ct_events if cb_type == 'cond' else cls._ct_states
+                if name in valid_names and callable(method):
+                    cb_dict[name] = method
 
     def __init_subclass__(cls, *args, **kwargs) -> None:
         """
